@@ -219,12 +219,10 @@ theorem rescaleAssign_ok_inv (env : Env) (ct d' : Ct) (k : Nat) (hd : ct.inv env
   simp only [rescaleAssign] at h
   grind [Ct.inv, Meta.effK]
 
-/-- `ckks_rescale_into` keeps the invariant only when the rescaled source fits the destination -/
+/-- `ckks_rescale_into` (repaired: pays the destination offset) keeps the invariant -/
 theorem rescaleInto_ok_inv (env : Env) (dst src d' : Ct) (k : Nat)
-    (hfit : src.md.effK - k ≤ dst.maxK env)
     (h : rescaleInto env dst k src = .ok d') : d'.inv env ∧ d'.size = dst.size := by
-  simp only [rescaleInto] at h
-  simp only [Ct.maxK] at hfit
+  simp only [rescaleInto, Ct.maxK] at h
   grind [Ct.inv, Meta.effK]
 
 theorem mulInto_ok_inv (env : Env) (dst a b d' : Ct)
@@ -321,24 +319,17 @@ theorem compactCopy_ok_inv (env : Env) (hw : WF env) (dst a d' : Ct)
   · injection h with h; subst h
     exact ⟨le_divCeil_mul _ _ hw, rfl, rfl⟩
 
-theorem encrypt_ok_inv (env : Env) (hw : WF env) (ct d' : Ct) (k : Nat) (pt : Pt)
+theorem encrypt_ok_inv (env : Env) (ct d' : Ct) (k : Nat) (pt : Pt)
     (h : encrypt env ct k pt = .ok d') : d'.inv env ∧ d'.size = ct.size := by
   simp only [encrypt] at h
   split at h
   · cases h
   · split at h
+    · obtain ⟨c, h1, h2⟩ := bind_ok _ _ _ h
+      have := ptAlign_ok _ _ _ _ h2
+      subst this
+      exact setMeta_ok_inv _ _ _ _ h1
     · cases h
-    · next hk =>
-      split at h
-      · next hd =>
-        have := ptAlign_ok _ _ _ _ h
-        subst this
-        refine ⟨?_, rfl⟩
-        have h1 := le_divCeil_mul k env.base2k hw
-        have h2 : divCeil k env.base2k * env.base2k ≤ ct.size * env.base2k := Nat.mul_le_mul_right _ (by omega)
-        simp only [Ct.inv, Meta.effK]
-        omega
-      · cases h
 
 theorem decrypt_ok (env : Env) (ct d' : Ct) (pt : Pt) (h : decrypt env ct pt = .ok d') : d' = ct := by
   simp only [decrypt] at h
@@ -427,7 +418,7 @@ theorem bind_no_panic {σ : Type} (r : Res σ) (f : σ → Res σ) (hr : r.isPan
 theorem addPtZnxInto_no_panic (env : Env) (dst a : Ct) (pt : Pt) : (addPtZnxInto env dst a pt).isPanic = false :=
   bind_no_panic _ _ (shiftInto_no_panic _ _ _ _) (fun _ _ => ptAlign_no_panic _ _ _)
 
-theorem withPt_no_panic (env : Env) (pt : Pt) (dst : Ct) (f : Res Ct) (hnz : 0 < pt.md.effK)
+theorem withPt_no_panic (env : Env) (pt : Pt) (dst : Ct) (f : Res Ct)
     (hf : f.isPanic = false) : (withPt env pt dst f).isPanic = false := by
   simp only [withPt, ptBuild]
   grind [Res.isPanic]
@@ -445,90 +436,66 @@ theorem minK_eq_zero_iff (m : Meta) (b : Nat) (hb : 0 < b) : m.minK b = 0 ↔ m.
       simpa using this
     rw [this]; omega
 
-theorem addPtRnxInto_no_panic (env : Env) (hw : WF env) (dst a : Ct) (prec : Meta) (hnz : 0 < prec.effK) :
+theorem addPtRnxInto_no_panic (env : Env) (dst a : Ct) (prec : Meta) :
     (addPtRnxInto env dst a prec).isPanic = false := by
-  have h0 : prec.minK env.base2k ≠ 0 := by rw [Ne, minK_eq_zero_iff _ _ hw]; omega
   have := addPtZnxInto_no_panic env dst a ⟨prec, env.base2k⟩
   simp only [addPtRnxInto, rnxToZnx]
   grind [Res.isPanic]
 
-theorem addPtRnxAssign_no_panic (env : Env) (hw : WF env) (dst : Ct) (prec : Meta) (hnz : 0 < prec.effK) :
+theorem addPtRnxAssign_no_panic (env : Env) (dst : Ct) (prec : Meta) :
     (addPtRnxAssign env dst prec).isPanic = false := by
-  have h0 : prec.minK env.base2k ≠ 0 := by rw [Ne, minK_eq_zero_iff _ _ hw]; omega
   have := ptAlign_no_panic env dst ⟨prec, env.base2k⟩
   simp only [addPtRnxAssign, rnxToZnx, addPtZnxAssign]
   grind [Res.isPanic]
 
-/-- the constant injection panics exactly when the aligned constant has more limbs than the destination -/
-theorem cstAssign_panic_iff (env : Env) (dst : Ct) (cst : Cst) :
-    (cstAssign env dst cst).isPanic = true ↔
-      ((cst.re || cst.im) = true ∧ cst.md.effK ≤ dst.md.logBudget + cst.md.logDelta ∧ dst.size < cst.limbs) := by
+theorem cstAssign_no_panic (env : Env) (dst : Ct) (cst : Cst) : (cstAssign env dst cst).isPanic = false := by
   simp only [cstAssign]
   grind [Res.isPanic]
 
 theorem toZnxAtK_cases (env : Env) (k ld : Nat) (re im : Bool) (dst : Ct) :
-    (env.maxLogDeltaPrec < ld ∧ toZnxAtK env k ld re im dst = .inr (.err .other dst)) ∨
-    (ld ≤ env.maxLogDeltaPrec ∧ (re || im) = true ∧ k = 0 ∧ toZnxAtK env k ld re im dst = .inr (.panic .encodeZero)) ∨
+    (toZnxAtK env k ld re im dst = .inr (.err .other dst)) ∨
     (ld ≤ env.maxLogDeltaPrec ∧ ¬ ((re || im) = true ∧ k = 0) ∧
       toZnxAtK env k ld re im dst = .inl ⟨⟨ld, k - ld⟩, divCeil k env.base2k, re, im⟩) := by
   simp only [toZnxAtK]
   grind
 
-theorem addCstRnxAssign_no_panic (env : Env) (hw : WF env) (dst : Ct) (prec : Meta) (re im : Bool)
-    (hd : dst.inv env) (hpos : 0 < prec.logDelta) (hle : prec.logDelta ≤ dst.md.logDelta) :
-    (addCstRnxAssign env dst prec re im).isPanic = false := by
-  have hfit : divCeil (dst.md.logBudget + prec.logDelta) env.base2k ≤ dst.size := by
-    apply divCeil_le_of_le_mul _ _ _ hw
-    simp only [Ct.inv, Meta.effK] at hd
-    omega
-  simp only [addCstRnxAssign, toZnxAtK, cstAssign]
-  grind [Res.isPanic]
+theorem addCstZnxInto_no_panic (env : Env) (dst a : Ct) (cst : Cst) : (addCstZnxInto env dst a cst).isPanic = false :=
+  bind_no_panic _ _ (shiftInto_no_panic _ _ _ _) (fun _ _ => cstAssign_no_panic _ _ _)
 
-theorem addCstRnxInto_no_panic (env : Env) (hw : WF env) (dst a : Ct) (prec : Meta) (re im : Bool)
-    (hpos : 0 < prec.logDelta) (hle : prec.logDelta ≤ a.md.logDelta) :
+theorem addCstRnxAssign_no_panic (env : Env) (dst : Ct) (prec : Meta) (re im : Bool) :
+    (addCstRnxAssign env dst prec re im).isPanic = false := by
+  simp only [addCstRnxAssign]
+  split
+  · rfl
+  · rcases toZnxAtK_cases env (dst.md.logBudget + prec.logDelta) prec.logDelta re im dst with h | ⟨_, _, h⟩
+    · rw [h]; rfl
+    · rw [h]; exact cstAssign_no_panic _ _ _
+
+theorem addCstRnxInto_no_panic (env : Env) (dst a : Ct) (prec : Meta) (re im : Bool) :
     (addCstRnxInto env dst a prec re im).isPanic = false := by
   simp only [addCstRnxInto]
   split
   · exact shiftInto_no_panic _ _ _ _
   · split
-    · next hoff =>
-      rcases toZnxAtK_cases env (a.md.logBudget - offsetUnary env dst a + prec.logDelta) prec.logDelta re im dst with
-        ⟨_, h⟩ | ⟨_, _, hk, _⟩ | ⟨_, _, h⟩
-      · rw [h]; simp [Res.isPanic]
-      · omega
-      · rw [h]
-        apply bind_no_panic _ _ (shiftInto_no_panic _ _ _ _)
-        intro s hs
-        obtain ⟨hinv, hsz⟩ := shiftInto_ok_inv _ _ _ _ _ hs
-        have hmd : s.md = ⟨a.md.logDelta, a.md.logBudget - (offsetUnary env dst a + 0)⟩ := by
-          simp only [shiftInto] at hs
-          grind
-        have hfit : divCeil (a.md.logBudget - offsetUnary env dst a + prec.logDelta) env.base2k ≤ s.size := by
-          apply divCeil_le_of_le_mul _ _ _ hw
-          simp only [Ct.inv, Meta.effK, hmd] at hinv
-          omega
-        simp only [cstAssign]
-        grind [Res.isPanic]
-    · simp [Res.isPanic]
+    · rcases toZnxAtK_cases env (a.md.logBudget - offsetUnary env dst a + prec.logDelta) prec.logDelta re im dst with
+        h | ⟨_, _, h⟩
+      · rw [h]; rfl
+      · rw [h]; exact addCstZnxInto_no_panic _ _ _ _
+    · rfl
 
-theorem addCstZnxAssignK_no_panic (env : Env) (dst : Ct) (k ld : Nat) (re im : Bool)
-    (hfit : divCeil k env.base2k ≤ dst.size) (hk : 0 < k) :
+theorem addCstZnxAssignK_no_panic (env : Env) (dst : Ct) (k ld : Nat) (re im : Bool) :
     (addCstZnxAssignK env dst k ld re im).isPanic = false := by
-  simp only [addCstZnxAssignK, toZnxAtK, cstAssign]
-  grind [Res.isPanic]
+  simp only [addCstZnxAssignK]
+  rcases toZnxAtK_cases env k ld re im dst with h | ⟨_, _, h⟩
+  · rw [h]; rfl
+  · rw [h]; exact cstAssign_no_panic _ _ _
 
-theorem addCstZnxIntoK_no_panic (env : Env) (dst a : Ct) (k ld : Nat) (re im : Bool)
-    (hfit : divCeil k env.base2k ≤ dst.size) (hk : 0 < k) :
+theorem addCstZnxIntoK_no_panic (env : Env) (dst a : Ct) (k ld : Nat) (re im : Bool) :
     (addCstZnxIntoK env dst a k ld re im).isPanic = false := by
-  simp only [addCstZnxIntoK, toZnxAtK]
-  split
-  · next r hr => grind [Res.isPanic]
-  · next cst hc =>
-    apply bind_no_panic _ _ (shiftInto_no_panic _ _ _ _)
-    intro s hs
-    have hsz := (shiftInto_ok_inv _ _ _ _ _ hs).2
-    simp only [cstAssign]
-    grind [Res.isPanic]
+  simp only [addCstZnxIntoK]
+  rcases toZnxAtK_cases env k ld re im dst with h | ⟨_, _, h⟩
+  · rw [h]; rfl
+  · rw [h]; exact addCstZnxInto_no_panic _ _ _ _
 
 theorem negInto_no_panic (env : Env) (dst a : Ct) : (negInto env dst a).isPanic = false := by
   simp only [negInto, shiftInto]
@@ -568,29 +535,49 @@ theorem mulPtParams_cnv (env : Env) (res a : Ct) (p : Meta) (base : Nat) (q : Mu
   simp only [mulPtParams, Ct.maxK] at h
   grind
 
-/-- with compact operands `ckks_mul_into` cannot panic -/
-theorem mulInto_no_panic (env : Env) (hw : WF env) (dst a b : Ct) (ha : a.compact env) (hb : b.compact env) :
-    (mulInto env dst a b).isPanic = false := by
+theorem effLimbs_pos (env : Env) (hw : WF env) (c : Ct) (h : 0 < c.md.effK) : 0 < effLimbs env c :=
+  divCeil_pos _ _ hw h
+
+theorem effLimbs_le (env : Env) (hw : WF env) (c : Ct) (h : c.inv env) : effLimbs env c ≤ c.size :=
+  divCeil_le_of_le_mul _ _ _ hw h
+
+theorem effLimbs_eq_zero_iff (env : Env) (hw : WF env) (c : Ct) : effLimbs env c = 0 ↔ c.md.effK = 0 := by
+  constructor
+  · intro h
+    have := le_divCeil_mul c.md.effK env.base2k hw
+    simp only [effLimbs] at h; rw [h] at this; omega
+  · intro h; simp only [effLimbs, h]
+    have := divCeil_mul_self 0 env.base2k hw; simpa using this
+
+/-- `ckks_mul_into` cannot panic on initialised operands that fit their storage — compactness is no
+longer needed (the core entry points narrow the operands to their effective limbs) -/
+theorem mulInto_no_panic (env : Env) (hw : WF env) (dst a b : Ct) (ia : a.inv env) (ib : b.inv env)
+    (pa : 0 < a.md.effK) (pb : 0 < b.md.effK) : (mulInto env dst a b).isPanic = false := by
   simp only [mulInto]
   split
   · simp [Res.isPanic]
   · next q hq =>
     have hc := mulCtParams_cnv _ _ _ _ _ hq
-    have ia := compact_inv env a hw ha
-    have ib := compact_inv env b hw hb
-    simp only [Ct.inv] at ia ib
-    have hhi : cnvHi env.base2k q.cnv ≤ a.size + b.size := by
+    have la := le_divCeil_mul a.md.effK env.base2k hw
+    have lb := le_divCeil_mul b.md.effK env.base2k hw
+    have hhi : cnvHi env.base2k q.cnv ≤ effLimbs env a + effLimbs env b := by
       apply cnvHi_le _ _ _ hw
+      simp only [effLimbs]
       rw [Nat.add_mul]; omega
-    simp only [Ct.compact] at ha hb
+    have h1 := effLimbs_le env hw a ia
+    have h2 := effLimbs_le env hw b ib
+    have h3 := effLimbs_pos env hw a pa
+    have h4 := effLimbs_pos env hw b pb
     simp only [finishMul, tensorCheck]
     grind [Res.isPanic]
 
-/-- `ckks_mul_into` panics exactly when the parameters are accepted and an operand is not compact
-(given operands that fit their storage) -/
+/-- after the repair, the only way a ct×ct multiplication on operands that fit their storage can
+still panic is an operand that was never given a value (`effective_k = 0`) -/
 theorem mulInto_panic_iff (env : Env) (hw : WF env) (dst a b : Ct) (ia : a.inv env) (ib : b.inv env) :
     (mulInto env dst a b).isPanic = true ↔
-      ((∃ q, mulCtParams env dst a b = .ok q) ∧ (¬ a.compact env ∨ ¬ b.compact env)) := by
+      ((∃ q, mulCtParams env dst a b = .ok q) ∧ (a.md.effK = 0 ∨ b.md.effK = 0)) := by
+  have ea := effLimbs_eq_zero_iff env hw a
+  have eb := effLimbs_eq_zero_iff env hw b
   simp only [mulInto]
   split
   · next e he =>
@@ -602,51 +589,60 @@ theorem mulInto_panic_iff (env : Env) (hw : WF env) (dst a b : Ct) (ia : a.inv e
   · next q hq =>
     have hex : ∃ q, Except.ok q = (Except.ok q : Except Err MulP) := ⟨q, rfl⟩
     have hc := mulCtParams_cnv _ _ _ _ _ hq
-    simp only [Ct.inv] at ia ib
-    have hhi : cnvHi env.base2k q.cnv ≤ a.size + b.size := by
+    have la := le_divCeil_mul a.md.effK env.base2k hw
+    have lb := le_divCeil_mul b.md.effK env.base2k hw
+    have hhi : cnvHi env.base2k q.cnv ≤ effLimbs env a + effLimbs env b := by
       apply cnvHi_le _ _ _ hw
+      simp only [effLimbs]
       rw [Nat.add_mul]; omega
-    simp only [finishMul, tensorCheck, Ct.compact]
+    have h1 := effLimbs_le env hw a ia
+    have h2 := effLimbs_le env hw b ib
+    simp only [finishMul, tensorCheck]
     grind [Res.isPanic]
 
-theorem squareInto_no_panic (env : Env) (hw : WF env) (dst a : Ct) (ha : a.compact env) :
+theorem squareInto_no_panic (env : Env) (hw : WF env) (dst a : Ct) (ia : a.inv env) (pa : 0 < a.md.effK) :
     (squareInto env dst a).isPanic = false := by
   simp only [squareInto]
   split
   · simp [Res.isPanic]
   · next q hq =>
     have hc := mulCtParams_cnv _ _ _ _ _ hq
-    have ia := compact_inv env a hw ha
-    simp only [Ct.inv] at ia
-    have hhi : cnvHi env.base2k q.cnv ≤ 2 * a.size := by
+    have la := le_divCeil_mul a.md.effK env.base2k hw
+    have hhi : cnvHi env.base2k q.cnv ≤ 2 * effLimbs env a := by
       apply cnvHi_le _ _ _ hw
+      simp only [effLimbs]
       rw [Nat.mul_assoc]; omega
-    simp only [Ct.compact] at ha
+    have h1 := effLimbs_le env hw a ia
+    have h3 := effLimbs_pos env hw a pa
     simp only [finishMul, squareCheck]
     grind [Res.isPanic]
 
-theorem mulPtZnxInto_no_panic (env : Env) (hw : WF env) (dst a : Ct) (pt : Pt) (hq : pt.base2k = env.base2k)
-    (ha : a.compact env) : (mulPtZnxInto env dst a pt).isPanic = false := by
+theorem mulPtZnxInto_no_panic (env : Env) (hw : WF env) (dst a : Ct) (pt : Pt)
+    (ia : a.inv env) (pa : 0 < a.md.effK) : (mulPtZnxInto env dst a pt).isPanic = false := by
   simp only [mulPtZnxInto]
   split
-  · simp [Res.isPanic]
-  · next q hq' =>
-    have hc := mulPtParams_cnv _ _ _ _ _ _ hq'
-    have ia := compact_inv env a hw ha
-    simp only [Ct.inv, Meta.effK] at ia
-    have hk : pt.maxK = pt.size * env.base2k := by simp [Pt.maxK, hq]
-    have h3 : divCeil pt.maxK env.base2k = pt.size := by rw [hk]; exact divCeil_mul_self _ _ hw
-    have hhi : cnvHi env.base2k q.cnv ≤ a.size + pt.size := by
-      apply cnvHi_le _ _ _ hw
-      rw [Nat.add_mul]; omega
-    simp only [Ct.compact] at ha
-    simp only [finishMul, plainCheck]
-    grind [Res.isPanic]
+  · rfl
+  · next hne =>
+    have hq : pt.base2k = env.base2k := by omega
+    split
+    · simp [Res.isPanic]
+    · next q hq' =>
+      have hc := mulPtParams_cnv _ _ _ _ _ _ hq'
+      have la := le_divCeil_mul a.md.effK env.base2k hw
+      have hk : pt.maxK = pt.size * env.base2k := by simp [Pt.maxK, hq]
+      have h3 : divCeil pt.maxK env.base2k = pt.size := by rw [hk]; exact divCeil_mul_self _ _ hw
+      have hhi : cnvHi env.base2k q.cnv ≤ effLimbs env a + divCeil pt.maxK env.base2k := by
+        apply cnvHi_le _ _ _ hw
+        simp only [effLimbs, Meta.effK] at *
+        rw [h3, Nat.add_mul]; omega
+      have h1 := effLimbs_le env hw a ia
+      have h4 := effLimbs_pos env hw a pa
+      simp only [finishMul, plainCheck]
+      grind [Res.isPanic]
 
-theorem mulPtRnxInto_no_panic (env : Env) (hw : WF env) (dst a : Ct) (prec : Meta) (hnz : 0 < prec.effK)
-    (ha : a.compact env) : (mulPtRnxInto env dst a prec).isPanic = false := by
-  have h0 : prec.minK env.base2k ≠ 0 := by rw [Ne, minK_eq_zero_iff _ _ hw]; omega
-  have := mulPtZnxInto_no_panic env hw dst a ⟨prec, env.base2k⟩ rfl ha
+theorem mulPtRnxInto_no_panic (env : Env) (hw : WF env) (dst a : Ct) (prec : Meta)
+    (ia : a.inv env) (pa : 0 < a.md.effK) : (mulPtRnxInto env dst a prec).isPanic = false := by
+  have := mulPtZnxInto_no_panic env hw dst a ⟨prec, env.base2k⟩ ia pa
   simp only [mulPtRnxInto, rnxToZnx]
   grind [Res.isPanic]
 
@@ -659,19 +655,15 @@ theorem minK_minK (m : Meta) (b : Nat) (hb : 0 < b) (ld : Nat) (hld : ld ≤ m.m
   rw [he]
   rw [divCeil_mul_self _ _ hb]
 
-/-- `ckks_mul_pt_const_rnx_*` has no compactness assertion: it cannot panic on ciphertexts that fit
-their storage, for a precision that is not degenerate -/
+/-- `ckks_mul_pt_const_rnx_*` cannot panic on ciphertexts that fit their storage -/
 theorem mulCstRnx_no_panic (env : Env) (hw : WF env) (dst a : Ct) (prec : Meta) (re im assign : Bool)
-    (ia : a.inv env) (hnz : 0 < prec.effK) : (mulCstRnx env dst a prec re im assign).isPanic = false := by
-  have h0 : prec.minK env.base2k ≠ 0 := by rw [Ne, minK_eq_zero_iff _ _ hw]; omega
+    (ia : a.inv env) : (mulCstRnx env dst a prec re im assign).isPanic = false := by
   have hge := minK_ge prec env.base2k hw
   simp only [mulCstRnx]
   split
   · split <;> simp [Res.isPanic]
-  · rcases toZnxAtK_cases env (prec.minK env.base2k) prec.logDelta re im dst with
-      ⟨_, h⟩ | ⟨_, _, hk, _⟩ | ⟨_, _, h⟩
-    · rw [h]; simp [Res.isPanic]
-    · omega
+  · rcases toZnxAtK_cases env (prec.minK env.base2k) prec.logDelta re im dst with h | ⟨_, _, h⟩
+    · rw [h]; rfl
     · rw [h]
       simp only
       split
@@ -710,21 +702,17 @@ theorem compactCopy_no_panic (env : Env) (hw : WF env) (dst a : Ct) (ia : a.inv 
   simp only [compactCopy]
   grind [Res.isPanic]
 
-theorem encrypt_no_panic (env : Env) (ct : Ct) (k : Nat) (pt : Pt) (hk : 0 < k)
-    (hfit : divCeil k env.base2k ≤ ct.size) : (encrypt env ct k pt).isPanic = false := by
-  have := ptAlign_no_panic env { ct with md := ⟨pt.md.logDelta, k - pt.md.logDelta⟩ } pt
+theorem encrypt_no_panic (env : Env) (ct : Ct) (k : Nat) (pt : Pt) : (encrypt env ct k pt).isPanic = false := by
   simp only [encrypt]
-  grind [Res.isPanic]
+  split
+  · rfl
+  · split
+    · exact bind_no_panic _ _ (setMeta_no_panic _ _ _) (fun _ _ => ptAlign_no_panic _ _ _)
+    · rfl
 
 theorem decrypt_no_panic (env : Env) (ct : Ct) (pt : Pt) : (decrypt env ct pt).isPanic = false := by
   simp only [decrypt, usub]
   grind [Res.isPanic]
-
-/-- `ckks_rescale_into` is used only with a destination that can hold the rescaled source
-(the excluding hypothesis of the invariant theorem: the code does not check it) -/
-def RescaleFits (env : Env) (pool : Pool) : Op → Prop
-  | .rescale d k a => ∀ cd ca, pool[d]? = some cd → pool[a]? = some ca → ca.md.effK - k ≤ cd.maxK env
-  | _ => True
 
 theorem alignStep_ok_inv (env : Env) (pool pool' : Pool) (a b : Nat) (hI : Inv env pool)
     (h : alignStep env pool a b = .ok pool') : Inv env pool' := by
@@ -746,11 +734,11 @@ theorem alignStep_ok_inv (env : Env) (pool pool' : Pool) (a b : Nat) (hI : Inv e
 
 /-- one `ok` API call preserves `log_delta + log_budget ≤ max_k` on every ciphertext of the pool -/
 theorem stepR_ok_inv (env : Env) (hw : WF env) (pool pool' : Pool) (op : Op) (hI : Inv env pool)
-    (hr : RescaleFits env pool op) (h : stepR env pool op = .ok pool') : Inv env pool' := by
+    (h : stepR env pool op = .ok pool') : Inv env pool' := by
   cases op <;> simp only [stepR] at h
   case enc d k pt =>
     obtain ⟨cd, c, hcd, hf, rfl⟩ := op1_ok _ _ _ _ h
-    exact Inv_set _ _ _ _ hI (encrypt_ok_inv _ hw _ _ _ _ (withPt_ok _ _ _ _ _ hf)).1
+    exact Inv_set _ _ _ _ hI (encrypt_ok_inv _ _ _ _ _ (withPt_ok _ _ _ _ _ hf)).1
   case addCt d a b =>
     obtain ⟨cd, ca, cb, c, hcd, hca, hcb, hf, rfl⟩ := op3_ok _ _ _ _ _ _ h
     exact Inv_set _ _ _ _ hI (addCtInto_ok_inv _ _ _ _ _ hf).1
@@ -867,7 +855,7 @@ theorem stepR_ok_inv (env : Env) (hw : WF env) (pool pool' : Pool) (op : Op) (hI
     exact Inv_set _ _ _ _ hI (hf ▸ hI _ (mem_of_get? _ _ _ hcd))
   case rescale d k a =>
     obtain ⟨cd, ca, c, hcd, hca, hf, rfl⟩ := op2_ok _ _ _ _ _ h
-    exact Inv_set _ _ _ _ hI (rescaleInto_ok_inv _ _ _ _ _ (hr cd ca hcd hca) hf).1
+    exact Inv_set _ _ _ _ hI (rescaleInto_ok_inv _ _ _ _ _ hf).1
   case rescaleAssign d k =>
     obtain ⟨cd, c, hcd, hf, rfl⟩ := op1_ok _ _ _ _ h
     exact Inv_set _ _ _ _ hI (rescaleAssign_ok_inv _ _ _ _ (hI _ (mem_of_get? _ _ _ hcd)) hf).1
@@ -889,44 +877,28 @@ theorem stepR_ok_inv (env : Env) (hw : WF env) (pool pool' : Pool) (op : Op) (hI
     have := decrypt_ok _ _ _ _ hf
     exact Inv_set _ _ _ _ hI (this ▸ hI _ (mem_of_get? _ _ _ hcd))
 
-/-! ## the hypotheses under which a call cannot panic -/
+/-! ## the hypothesis under which a call cannot panic -/
 
-def compactAt (env : Env) (pool : Pool) (i : Nat) : Prop := ∀ c, pool[i]? = some c → c.compact env
+/-- the ciphertext in slot `i` holds a value: `effective_k > 0` (it was produced by an encryption or
+an evaluation, not merely allocated) -/
+def initAt (pool : Pool) (i : Nat) : Prop := ∀ c, pool[i]? = some c → 0 < c.md.effK
 
-/-- `Safe env pool op`: what the caller must guarantee for `op` in state `pool` so that the pinned code
-neither panics nor returns Ok with inconsistent metadata.  Each clause excludes one reproduced defect
-(docs/C16.md): non-compact operands of the tensor / mul-plain entry points, a ZNX plaintext of another
-radix in a multiplication, a constant more precise than the ciphertext, a zero-precision plaintext,
-an encryption position outside the buffer, `ckks_rescale_into` with too small a destination. -/
-def Safe (env : Env) (pool : Pool) : Op → Prop
-  | .enc d k pt => 0 < k ∧ 0 < pt.md.effK ∧ ∀ cd, pool[d]? = some cd → divCeil k env.base2k ≤ cd.size
-  | .addPtZnx _ _ pt => 0 < pt.md.effK
-  | .addPtZnxAssign _ pt => 0 < pt.md.effK
-  | .addPtRnx _ _ prec => 0 < prec.effK
-  | .addPtRnxAssign _ prec => 0 < prec.effK
-  | .addCstRnx _ a prec _ _ => 0 < prec.logDelta ∧ ∀ ca, pool[a]? = some ca → prec.logDelta ≤ ca.md.logDelta
-  | .addCstRnxAssign d prec _ _ => 0 < prec.logDelta ∧ ∀ cd, pool[d]? = some cd → prec.logDelta ≤ cd.md.logDelta
-  | .addCstZnx d _ k _ _ _ => 0 < k ∧ ∀ cd, pool[d]? = some cd → divCeil k env.base2k ≤ cd.size
-  | .addCstZnxAssign d k _ _ _ => 0 < k ∧ ∀ cd, pool[d]? = some cd → divCeil k env.base2k ≤ cd.size
-  | .mul _ a b => compactAt env pool a ∧ compactAt env pool b
-  | .mulAssign d a => compactAt env pool d ∧ compactAt env pool a
-  | .square _ a => compactAt env pool a
-  | .squareAssign d => compactAt env pool d
-  | .mulPtZnx _ a pt => pt.base2k = env.base2k ∧ 0 < pt.md.effK ∧ compactAt env pool a
-  | .mulPtZnxAssign d pt => pt.base2k = env.base2k ∧ 0 < pt.md.effK ∧ compactAt env pool d
-  | .mulPtRnx _ a prec => 0 < prec.effK ∧ compactAt env pool a
-  | .mulPtRnxAssign d prec => 0 < prec.effK ∧ compactAt env pool d
-  | .mulCstRnx _ _ prec _ _ => 0 < prec.effK
-  | .mulCstRnxAssign _ prec _ _ => 0 < prec.effK
-  | .mulAddCt _ a b => compactAt env pool a ∧ compactAt env pool b
-  | .mulAddPtZnx _ a pt => pt.base2k = env.base2k ∧ 0 < pt.md.effK ∧ compactAt env pool a
-  | .mulAddPtRnx _ a prec => 0 < prec.effK ∧ compactAt env pool a
-  | .mulAddCstRnx _ _ prec _ _ => 0 < prec.effK
-  | .rescale d k a => ∀ cd ca, pool[d]? = some cd → pool[a]? = some ca → ca.md.effK - k ≤ cd.maxK env
+/-- `Initialised env pool op`: the ciphertext operands of a ct×ct / ct×plaintext-vector multiplication
+have been given a value.  A merely allocated buffer has `effective_k = 0` and narrows to zero limbs,
+which the FFT64 convolution rejects with a panic (NTT120 accepts it). -/
+def Initialised (_env : Env) (pool : Pool) : Op → Prop
+  | .mul _ a b => initAt pool a ∧ initAt pool b
+  | .mulAssign d a => initAt pool d ∧ initAt pool a
+  | .square _ a => initAt pool a
+  | .squareAssign d => initAt pool d
+  | .mulPtZnx _ a _ => initAt pool a
+  | .mulPtZnxAssign d _ => initAt pool d
+  | .mulPtRnx _ a _ => initAt pool a
+  | .mulPtRnxAssign d _ => initAt pool d
+  | .mulAddCt _ a b => initAt pool a ∧ initAt pool b
+  | .mulAddPtZnx _ a _ => initAt pool a
+  | .mulAddPtRnx _ a _ => initAt pool a
   | _ => True
-
-theorem Safe_rescaleFits (env : Env) (pool : Pool) (op : Op) (h : Safe env pool op) : RescaleFits env pool op := by
-  cases op <;> simp only [RescaleFits] <;> first | trivial | exact h
 
 theorem putRes_no_panic (pool : Pool) (d : Nat) (r : Res Ct) (h : r.isPanic = false) : (putRes pool d r).isPanic = false := by
   cases r <;> simp_all [putRes, Res.isPanic]
@@ -977,66 +949,65 @@ theorem alignStep_no_panic (env : Env) (pool : Pool) (a b : Nat) : (alignStep en
 
 theorem ok_no_panic {σ : Type} (s : σ) : (Res.ok s : Res σ).isPanic = false := rfl
 
-/-- one API call does not panic when the state fits its storage and the call is `Safe` -/
+/-- one API call does not panic when the state fits its storage and multiplication operands hold a value -/
 theorem stepR_no_panic (env : Env) (hw : WF env) (pool : Pool) (op : Op) (hI : Inv env pool)
-    (hs : Safe env pool op) : (stepR env pool op).isPanic = false := by
-  cases op <;> simp only [stepR] <;> simp only [Safe] at hs
-  case enc d k pt =>
-    exact op1_no_panic _ _ _ (fun cd hcd => withPt_no_panic _ _ _ _ hs.2.1 (encrypt_no_panic _ _ _ _ hs.1 (hs.2.2 cd hcd)))
+    (hs : Initialised env pool op) : (stepR env pool op).isPanic = false := by
+  have inv : ∀ (i : Nat) (c : Ct), pool[i]? = some c → c.inv env := fun i c h => hI _ (mem_of_get? _ _ _ h)
+  cases op <;> simp only [stepR] <;> simp only [Initialised] at hs
+  case enc d k pt => exact op1_no_panic _ _ _ (fun _ _ => withPt_no_panic _ _ _ _ (encrypt_no_panic _ _ _ _))
   case addCt d a b => exact op3_no_panic _ _ _ _ _ (fun _ _ _ _ _ _ => addCtInto_no_panic _ _ _ _)
   case addCtAssign d a => exact op2_no_panic _ _ _ _ (fun _ _ _ _ => addCtAssign_no_panic _ _ _)
   case addPtZnx d a pt =>
-    exact op2_no_panic _ _ _ _ (fun _ _ _ _ => withPt_no_panic _ _ _ _ hs (addPtZnxInto_no_panic _ _ _ _))
+    exact op2_no_panic _ _ _ _ (fun _ _ _ _ => withPt_no_panic _ _ _ _ (addPtZnxInto_no_panic _ _ _ _))
   case addPtZnxAssign d pt =>
-    exact op1_no_panic _ _ _ (fun _ _ => withPt_no_panic _ _ _ _ hs (ptAlign_no_panic _ _ _))
-  case addPtRnx d a prec => exact op2_no_panic _ _ _ _ (fun _ _ _ _ => addPtRnxInto_no_panic _ hw _ _ _ hs)
-  case addPtRnxAssign d prec => exact op1_no_panic _ _ _ (fun _ _ => addPtRnxAssign_no_panic _ hw _ _ hs)
-  case addCstRnx d a prec re im =>
-    exact op2_no_panic _ _ _ _ (fun _ ca _ hca => addCstRnxInto_no_panic _ hw _ _ _ _ _ hs.1 (hs.2 ca hca))
-  case addCstRnxAssign d prec re im =>
-    exact op1_no_panic _ _ _ (fun cd hcd =>
-      addCstRnxAssign_no_panic _ hw _ _ _ _ (hI _ (mem_of_get? _ _ _ hcd)) hs.1 (hs.2 cd hcd))
-  case addCstZnx d a k ld re im =>
-    exact op2_no_panic _ _ _ _ (fun cd _ hcd _ => addCstZnxIntoK_no_panic _ _ _ _ _ _ _ (hs.2 cd hcd) hs.1)
-  case addCstZnxAssign d k ld re im =>
-    exact op1_no_panic _ _ _ (fun cd hcd => addCstZnxAssignK_no_panic _ _ _ _ _ _ (hs.2 cd hcd) hs.1)
+    exact op1_no_panic _ _ _ (fun _ _ => withPt_no_panic _ _ _ _ (ptAlign_no_panic _ _ _))
+  case addPtRnx d a prec => exact op2_no_panic _ _ _ _ (fun _ _ _ _ => addPtRnxInto_no_panic _ _ _ _)
+  case addPtRnxAssign d prec => exact op1_no_panic _ _ _ (fun _ _ => addPtRnxAssign_no_panic _ _ _)
+  case addCstRnx d a prec re im => exact op2_no_panic _ _ _ _ (fun _ _ _ _ => addCstRnxInto_no_panic _ _ _ _ _ _)
+  case addCstRnxAssign d prec re im => exact op1_no_panic _ _ _ (fun _ _ => addCstRnxAssign_no_panic _ _ _ _ _)
+  case addCstZnx d a k ld re im => exact op2_no_panic _ _ _ _ (fun _ _ _ _ => addCstZnxIntoK_no_panic _ _ _ _ _ _ _)
+  case addCstZnxAssign d k ld re im => exact op1_no_panic _ _ _ (fun _ _ => addCstZnxAssignK_no_panic _ _ _ _ _ _)
   case neg d a => exact op2_no_panic _ _ _ _ (fun _ _ _ _ => negInto_no_panic _ _ _)
   case negAssign d => exact op1_no_panic _ _ _ (fun _ _ => ok_no_panic _)
   case mul d a b =>
-    exact op3_no_panic _ _ _ _ _ (fun _ ca cb _ hca hcb => mulInto_no_panic _ hw _ _ _ (hs.1 ca hca) (hs.2 cb hcb))
+    exact op3_no_panic _ _ _ _ _ (fun _ ca cb _ hca hcb =>
+      mulInto_no_panic _ hw _ _ _ (inv _ _ hca) (inv _ _ hcb) (hs.1 ca hca) (hs.2 cb hcb))
   case mulAssign d a =>
-    exact op2_no_panic _ _ _ _ (fun cd ca hcd hca => mulInto_no_panic _ hw _ _ _ (hs.1 cd hcd) (hs.2 ca hca))
-  case square d a => exact op2_no_panic _ _ _ _ (fun _ ca _ hca => squareInto_no_panic _ hw _ _ (hs ca hca))
-  case squareAssign d => exact op1_no_panic _ _ _ (fun cd hcd => squareInto_no_panic _ hw _ _ (hs cd hcd))
+    exact op2_no_panic _ _ _ _ (fun cd ca hcd hca =>
+      mulInto_no_panic _ hw _ _ _ (inv _ _ hcd) (inv _ _ hca) (hs.1 cd hcd) (hs.2 ca hca))
+  case square d a =>
+    exact op2_no_panic _ _ _ _ (fun _ ca _ hca => squareInto_no_panic _ hw _ _ (inv _ _ hca) (hs ca hca))
+  case squareAssign d =>
+    exact op1_no_panic _ _ _ (fun cd hcd => squareInto_no_panic _ hw _ _ (inv _ _ hcd) (hs cd hcd))
   case mulPtZnx d a pt =>
     exact op2_no_panic _ _ _ _ (fun _ ca _ hca =>
-      withPt_no_panic _ _ _ _ hs.2.1 (mulPtZnxInto_no_panic _ hw _ _ _ hs.1 (hs.2.2 ca hca)))
+      withPt_no_panic _ _ _ _ (mulPtZnxInto_no_panic _ hw _ _ _ (inv _ _ hca) (hs ca hca)))
   case mulPtZnxAssign d pt =>
     exact op1_no_panic _ _ _ (fun cd hcd =>
-      withPt_no_panic _ _ _ _ hs.2.1 (mulPtZnxInto_no_panic _ hw _ _ _ hs.1 (hs.2.2 cd hcd)))
+      withPt_no_panic _ _ _ _ (mulPtZnxInto_no_panic _ hw _ _ _ (inv _ _ hcd) (hs cd hcd)))
   case mulPtRnx d a prec =>
-    exact op2_no_panic _ _ _ _ (fun _ ca _ hca => mulPtRnxInto_no_panic _ hw _ _ _ hs.1 (hs.2 ca hca))
+    exact op2_no_panic _ _ _ _ (fun _ ca _ hca => mulPtRnxInto_no_panic _ hw _ _ _ (inv _ _ hca) (hs ca hca))
   case mulPtRnxAssign d prec =>
-    exact op1_no_panic _ _ _ (fun cd hcd => mulPtRnxInto_no_panic _ hw _ _ _ hs.1 (hs.2 cd hcd))
+    exact op1_no_panic _ _ _ (fun cd hcd => mulPtRnxInto_no_panic _ hw _ _ _ (inv _ _ hcd) (hs cd hcd))
   case mulCstRnx d a prec re im =>
-    exact op2_no_panic _ _ _ _ (fun _ ca _ hca => mulCstRnx_no_panic _ hw _ _ _ _ _ _ (hI _ (mem_of_get? _ _ _ hca)) hs)
+    exact op2_no_panic _ _ _ _ (fun _ ca _ hca => mulCstRnx_no_panic _ hw _ _ _ _ _ _ (inv _ _ hca))
   case mulCstRnxAssign d prec re im =>
-    exact op1_no_panic _ _ _ (fun cd hcd => mulCstRnx_no_panic _ hw _ _ _ _ _ _ (hI _ (mem_of_get? _ _ _ hcd)) hs)
+    exact op1_no_panic _ _ _ (fun cd hcd => mulCstRnx_no_panic _ hw _ _ _ _ _ _ (inv _ _ hcd))
   case mulAddCt d a b =>
     exact op3_no_panic _ _ _ _ _ (fun _ ca cb _ hca hcb =>
-      mulAddWith_no_panic _ _ _ (mulInto_no_panic _ hw _ _ _ (hs.1 ca hca) (hs.2 cb hcb)))
+      mulAddWith_no_panic _ _ _ (mulInto_no_panic _ hw _ _ _ (inv _ _ hca) (inv _ _ hcb) (hs.1 ca hca) (hs.2 cb hcb)))
   case mulAddPtZnx d a pt =>
     exact op2_no_panic _ _ _ _ (fun _ ca _ hca =>
-      withPt_no_panic _ _ _ _ hs.2.1 (mulAddWith_no_panic _ _ _ (mulPtZnxInto_no_panic _ hw _ _ _ hs.1 (hs.2.2 ca hca))))
+      withPt_no_panic _ _ _ _ (mulAddWith_no_panic _ _ _ (mulPtZnxInto_no_panic _ hw _ _ _ (inv _ _ hca) (hs ca hca))))
   case mulAddPtRnx d a prec =>
     exact op2_no_panic _ _ _ _ (fun _ ca _ hca =>
-      mulAddWith_no_panic _ _ _ (mulPtRnxInto_no_panic _ hw _ _ _ hs.1 (hs.2 ca hca)))
+      mulAddWith_no_panic _ _ _ (mulPtRnxInto_no_panic _ hw _ _ _ (inv _ _ hca) (hs ca hca)))
   case mulAddCstRnx d a prec re im =>
     refine op2_no_panic _ _ _ _ (fun cd ca _ hca => ?_)
     simp only [mulAddCstRnx]
     split
     · rfl
-    · exact mulAddWith_no_panic _ _ _ (mulCstRnx_no_panic _ hw _ _ _ _ _ _ (hI _ (mem_of_get? _ _ _ hca)) hs)
+    · exact mulAddWith_no_panic _ _ _ (mulCstRnx_no_panic _ hw _ _ _ _ _ _ (inv _ _ hca))
   case mulPow2 d a bits => exact op2_no_panic _ _ _ _ (fun _ _ _ _ => shiftInto_no_panic _ _ _ _)
   case mulPow2Assign d bits => exact op1_no_panic _ _ _ (fun _ _ => ok_no_panic _)
   case divPow2 d a bits => exact op2_no_panic _ _ _ _ (fun _ _ _ _ => divPow2Into_no_panic _ _ _ _)
@@ -1050,8 +1021,7 @@ theorem stepR_no_panic (env : Env) (hw : WF env) (pool : Pool) (op : Op) (hI : I
   case align a b => exact alignStep_no_panic _ _ _ _
   case compact d => exact op1_no_panic _ _ _ (fun _ _ => realloc_no_panic _ _ _)
   case realloc d size => exact op1_no_panic _ _ _ (fun _ _ => realloc_no_panic _ _ _)
-  case compactCopy d a =>
-    exact op2_no_panic _ _ _ _ (fun _ ca _ hca => compactCopy_no_panic _ hw _ _ (hI _ (mem_of_get? _ _ _ hca)))
+  case compactCopy d a => exact op2_no_panic _ _ _ _ (fun _ ca _ hca => compactCopy_no_panic _ hw _ _ (inv _ _ hca))
   case setMeta d m => exact op1_no_panic _ _ _ (fun _ _ => setMeta_no_panic _ _ _)
   case dec a pt => exact op1_no_panic _ _ _ (fun _ _ => decrypt_no_panic _ _ _)
 
@@ -1063,15 +1033,14 @@ def Along (P : Env → Pool → Op → Prop) (env : Env) : Pool → List Op → 
   | s, op :: rest => P env s op ∧ ∀ s', stepR env s op = .ok s' → Along P env s' rest
 
 theorem run_ok_inv (env : Env) (hw : WF env) (prog : List Op) :
-    ∀ (s s' : Pool), Inv env s → Along RescaleFits env s prog → run env s prog = .ok s' → Inv env s' := by
+    ∀ (s s' : Pool), Inv env s → run env s prog = .ok s' → Inv env s' := by
   induction prog with
-  | nil => intro s s' hI _ h; simp only [run] at h; injection h with h; exact h ▸ hI
+  | nil => intro s s' hI h; simp only [run] at h; injection h with h; exact h ▸ hI
   | cons op rest ih =>
-    intro s s' hI hA h
+    intro s s' hI h
     simp only [run] at h
-    obtain ⟨h1, h2⟩ := hA
     split at h
-    · next s1 hs1 => exact ih s1 s' (stepR_ok_inv env hw s s1 op hI h1 hs1) (h2 s1 hs1) h
+    · next s1 hs1 => exact ih s1 s' (stepR_ok_inv env hw s s1 op hI hs1) h
     · next r hne =>
       cases hr : stepR env s op with
       | ok s1 => exact absurd hr (hne s1)
@@ -1079,7 +1048,7 @@ theorem run_ok_inv (env : Env) (hw : WF env) (prog : List Op) :
       | panic p => rw [hr] at h; cases h
 
 theorem run_no_panic (env : Env) (hw : WF env) (prog : List Op) :
-    ∀ (s : Pool), Inv env s → Along Safe env s prog → (run env s prog).isPanic = false := by
+    ∀ (s : Pool), Inv env s → Along Initialised env s prog → (run env s prog).isPanic = false := by
   induction prog with
   | nil => intro s _ _; rfl
   | cons op rest ih =>
@@ -1088,8 +1057,7 @@ theorem run_no_panic (env : Env) (hw : WF env) (prog : List Op) :
     have hp := stepR_no_panic env hw s op hI h1
     simp only [run]
     split
-    · next s1 hs1 =>
-      exact ih s1 (stepR_ok_inv env hw s s1 op hI (Safe_rescaleFits _ _ _ h1) hs1) (h2 s1 hs1)
+    · next s1 hs1 => exact ih s1 (stepR_ok_inv env hw s s1 op hI hs1) (h2 s1 hs1)
     · next r hne =>
       cases hr : stepR env s op with
       | ok s1 => exact absurd hr (hne s1)
